@@ -107,6 +107,18 @@ pub fn mutations_for(path: &str, full: bool) -> Vec<Mutation> {
         }
     }
     if full { v.push(Mutation::rm(&r("a/b/c/d"))); v.push(Mutation::rm(&r("e/f"))); }
+    // names the path expects to be missing: the attacker creates them (and removes them again) at any moment
+    let mut prefix = String::new();
+    for comp in path.split_whitespace().next().unwrap_or("").split('/') {
+        if comp.is_empty() || comp == "." || comp == ".." { if comp == ".." { break; } continue; }
+        prefix = if prefix.is_empty() { comp.to_string() } else { format!("{}/{}", prefix, comp) };
+        let resolved = prefix.replacen("abs", "a/b", 1);
+        if lstat(&r(&resolved)).is_none() && !resolved.contains("lnk") && !resolved.starts_with("up") {
+            v.push(Mutation::mkdir(&r(&resolved)));
+            v.push(Mutation::rm(&r(&resolved)));
+            break;
+        }
+    }
     v
 }
 
@@ -145,6 +157,8 @@ pub fn mutating_scenarios(thorough: bool) -> Vec<Scenario> {
         Op::new("remove_all").root(ROOT_IN).path("a/b/c"),
         Op::new("mkdir_all").root(ROOT_IN).path("a/b/x/y/z").mode(0o755),
         Op::new("mkdir_all").root(ROOT_IN).path("abs/x/y").mode(0o755),
+        Op::new("mkdir_all").root(ROOT_IN).path("x/../../escaped").mode(0o755),
+        Op::new("mkdir_all").root(ROOT_IN).path("a/x/../../../../escaped").mode(0o755),
         Op::new("create").root(ROOT_IN).path("a/b/new").itype("file").mode(0o644),
         Op::new("create").root(ROOT_IN).path("a/b/newdir").itype("dir").mode(0o755),
         Op::new("create").root(ROOT_IN).path("a/b/newlnk").itype("symlink").path2("../../e"),
